@@ -14,6 +14,7 @@ R11.4  every float->int conversion is guarded exactly (decided point-wise in C02
 R11.8  count-leading/trailing-zero builtins are undefined for a zero argument: the argument, as converted to the builtin's
        parameter width, must be the value that the dominating non-zero test examined (a 64-bit test does not protect a 32-bit builtin)
 R11.9  every declared local of an emitted function carries its own `= 0` initialiser (no read of an indeterminate object)
+R11.10 declaration and use writers spell every identifier alike (shared twin-emitter rule; a mismatch does not compile)
 R11.5  no typed dereference of linear memory in the little-endian configuration (only byte copies / atomics)
 R11.6  compile witness: one translation unit containing every template compiles without errors with gcc and clang
        as -std=gnu89 (thorough: gnu99, gnu11, gnu17) with implicit declarations and incompatible pointers as errors
@@ -526,6 +527,10 @@ def run(chk):
     # R11.9: WebAssembly locals are zero on entry and may be read before any write - in the emitted C each local therefore needs its
     # own initialiser, otherwise the read is of an indeterminate object (results differ between optimisation levels); shared with C03
     c03.check_function_body(chk, tus, tabs, rule='R11.9')
+    # R11.10: an identifier spelled differently by the declaration writer and the use writer is an undeclared identifier - the
+    # output does not compile (twin-emitter rule shared with C04 R04.2 / C09 R09.5)
+    from . import c09
+    c09.check_twins(chk, tus, rule='R11.10')
     compile_witness(chk, h.source(), chk.tier)
     check_string_positions(chk, tus)
     chk.floor('R11.3', 8)
